@@ -233,6 +233,16 @@ func (e *c12Env) run(c c12Case) (obs, bad string) {
 				}
 				ok, err := otp.ValidateOCRA(sec, code, su, in)
 				results = append(results, fmt.Sprint(ok, err != nil))
+				// and the RIGHT code (taken from a generation on private copies of everything): an accepted validation
+				// must leave the caller's input alone just the same, and accept it a second time
+				if right, gerr := otp.GenerateOCRA(sec, cfgCopy, otp.OCRAInput{Counter: clone(inCopy.Counter), Challenge: clone(inCopy.Challenge), Password: clone(inCopy.Password), SessionInfo: clone(inCopy.SessionInfo), Timestamp: clone(inCopy.Timestamp)}); gerr == nil {
+					ok1, _ := otp.ValidateOCRA(sec, right, su, in)
+					ok2, _ := otp.ValidateOCRA(sec, right, su, in)
+					results = append(results, fmt.Sprint("accepted:", ok1, ok2))
+					if !ok1 || !ok2 {
+						panic(fmt.Sprintf("VERIF-C12: the generated code %s validated %v the first and %v the second time with the caller's unchanged input", right, ok1, ok2))
+					}
+				}
 			case "OCRAInput.Validate":
 				results = append(results, errStr(in.Validate(cfg)))
 			case "padBytes":
